@@ -162,9 +162,10 @@ impl Linter {
     }
 
     pub fn set_lint_config_from_json(&mut self, json: String) -> Result<(), String> {
-        self.lint_group
-            .config
-            .merge_from(&mut serde_json::from_str(&json).map_err(|v| v.to_string())?);
+        let mut new_config = serde_json::from_str(&json).map_err(|v| v.to_string())?;
+        // Rules the new configuration leaves unset go back to their defaults.
+        self.lint_group.config.clear();
+        self.lint_group.config.merge_from(&mut new_config);
         Ok(())
     }
 
@@ -202,9 +203,11 @@ impl Linter {
     }
 
     pub fn set_lint_config_from_object(&mut self, object: JsValue) -> Result<(), String> {
-        self.lint_group
-            .config
-            .merge_from(&mut serde_wasm_bindgen::from_value(object).map_err(|v| v.to_string())?);
+        let mut new_config =
+            serde_wasm_bindgen::from_value(object).map_err(|v| v.to_string())?;
+        // Rules the new configuration leaves unset go back to their defaults.
+        self.lint_group.config.clear();
+        self.lint_group.config.merge_from(&mut new_config);
         Ok(())
     }
 
